@@ -183,7 +183,7 @@ class Executor:
         self.mf = mirfile
         self.oc = overflow_checks
         self.models = models
-        self.resolver = resolver or (lambda callee: None)
+        self.resolver = resolver or (lambda callee, nargs=None: None)
         self.solver = z3.Solver()
         # branch-feasibility pruning is an optimisation only: `unknown` keeps the branch (every reported
         # outcome is later backed by a model + native replay, every "holds" by an unsat answer that includes
@@ -661,7 +661,7 @@ class Executor:
             self.goto(fr, t.a["target"])
             return None
         if k == "return":
-            rv = self.read(st, (fr.fid, 0), ())
+            rv = st.cells.get((fr.fid, 0), UNDEF)
             if isinstance(rv, Undef):
                 if fr.func.ret_ty.strip() in ("()", ""):
                     rv = UNIT
@@ -778,7 +778,7 @@ class Executor:
             self.stats["forks"] += max(0, len(out) - 1)
             return out
         # 2. functions of the crate under test: inline from their own MIR
-        name = self.resolver(callee)
+        name = self.resolver(callee, len(args))
         if name is not None:
             func = self.mf.func(name)
             self.stats["inlined"][name] = self.stats["inlined"].get(name, 0) + 1
